@@ -290,7 +290,7 @@ class C10Monitor(X.Monitor):
             "max_x_position_list": lambda v: [x * 1.5 + 1.0 for x in v],
             "max_y_position_list": lambda v: [x * 1.5 + 1.0 for x in v],
             "max_distance_list": lambda v: [x * 1.5 + 1.0 for x in v],
-            "min_distance_list": lambda v: [x * 0.5 for x in v],
+            "min_distance_list": lambda v: [x - abs(x) * 0.5 for x in v],
             "min_point_numbers": lambda v: [max(0, x - 3) for x in v],
             "confidence_threshold_list": lambda v: [x * 0.5 for x in v],
         }
